@@ -732,6 +732,11 @@ func off[S any, F any](s *S, f *F) uintptr { return uintptr(unsafe.Pointer(f)) -
         if fam == 'ForShape':
             self.w('\tif pn, _ := rt.Derive(func() { _ = optics.ForShape%d[%s](%s) }); !pn {\n\t\trt.Accepted("C02", c, %s)\n\t}' % (K, targs, args, q(detail)))
             return
+        if names and K == 1:
+            e = self.resolve_name(L, names[0])
+            if e is not None and not e.crossing:
+                # the same name was derived with its true type just before: the refusal must not depend on history
+                self.w('\trt.Derive(func() { _ = optics.ForProduct1[%s, %s](%s); _ = optics.ForSpectrum1[%s, %s](%s) })' % (S, e.gotype(), q(names[0]), S, e.gotype(), q(names[0])))
         if K == 1 and fam == 'ForProduct':
             # keep the optic so that, if it was silently accepted, its effect on memory is shown
             T = tys[0]
